@@ -4,6 +4,7 @@ CONSTANTS
   Lines <- MC_Lines_quick
   MaxCount = 2
   BadBytes = "BADBYTES"
+  FailModes = {FALSE}
 CONSTRAINT Bounded
 VIEW View
 INVARIANT RegIsBalance
